@@ -1,6 +1,7 @@
 package main
 
 import (
+	"os"
 	"fmt"
 	"go/token"
 	"sort"
@@ -27,6 +28,7 @@ func init() {
 			"C07.R2 MPT with per-directory facts: every rename in a batch publisher is followed by a directory sync of both directories before the next rename / success return",
 			"C07.R3 bindings of the operation tables reach the real primitives; no discarded errors",
 			"C07.R4 MPT: a direct install reports success only after the durable writer ran",
+			"C07.R5 TABLE: the staging file of the durable writer is created exclusively (os.CreateTemp / O_EXCL)",
 		},
 		Assumptions: []string{"fsync(2)/rename(2) semantics of the OS", "operation tables are only replaced in tests (test files are not part of the analysed build)"},
 	})
@@ -132,6 +134,8 @@ func runC07(c *Ctx) {
 
 	// ---- R4 (round 3 of seeding): success of a direct install means the durable writer ran
 	r.MinInst["C07.R4"] = 1
+	r.MinInst["C07.R5"] = 1
+	checkStagingFileExclusive(c)
 	for _, fn := range funcsCalling(p, "pkg/font.writeGob") {
 		runFlowRuleOn(c, FlowRule{
 			ID:   "C07.R4",
@@ -734,5 +738,88 @@ func checkNoDiscardedErrors(c *Ctx, rule string, refs []string, pkgs []string) {
 				r.Bad(rule, FuncID(fn), construct, p.Pos(i.Pos()), "error of "+ref+" is discarded: a failed sync/close/rename would be reported as success")
 			}
 		})
+	}
+}
+
+// ---------------- C07.R5 (round 4 seed C07-G): the staging file is this installer's alone ----------------
+
+// checkStagingFileExclusive: "sync before publish" is an argument about ONE writer and ONE inode: the installer fsyncs
+// and verifies its staging file and then renames it over the font. That holds only if nobody else can open the same
+// staging file in between, i.e. if its name is unique per attempt. The createTemp operation of the default persistence
+// operations is therefore os.CreateTemp itself (random name, O_EXCL) — or a function whose every file creation is
+// os.CreateTemp or carries O_EXCL. A fixed staging name opened with O_TRUNC lets a second installer truncate the inode
+// the first one is about to publish; after a power loss the published font is durable but empty.
+func checkStagingFileExclusive(c *Ctx) {
+	p, r := c.P, c.R
+	const fid = "pkg/font.defaultGobPersistenceOperations"
+	fn := p.Func(fid)
+	if fn == nil {
+		r.Bad("C07.R5", fid, "anchor", "", "UNRESOLVED-ANCHOR")
+		return
+	}
+	n := 0
+	eachInstr(fn, func(_ *ssa.BasicBlock, _ int, i ssa.Instruction) {
+		st, ok := i.(*ssa.Store)
+		if !ok {
+			return
+		}
+		fa, ok := st.Addr.(*ssa.FieldAddr)
+		if !ok {
+			return
+		}
+		f := structField(fa.X.Type(), fa.Field)
+		if f == nil || f.Name() != "createTemp" {
+			return
+		}
+		n++
+		var target *ssa.Function
+		switch x := st.Val.(type) {
+		case *ssa.Function:
+			target = x
+		case *ssa.MakeClosure:
+			target, _ = x.Fn.(*ssa.Function)
+		case *ssa.ChangeType:
+			target, _ = x.X.(*ssa.Function)
+		}
+		if target == nil {
+			r.Bad("C07.R5", fid, "createTemp", p.Pos(st.Pos()), "UNDECIDED: the staging-file constructor is not a function value")
+			return
+		}
+		if target.Pkg != nil && target.Pkg.Pkg.Path() == "os" && target.Name() == "CreateTemp" {
+			r.OK("C07.R5", fid, "createTemp", p.Pos(st.Pos()), "os.CreateTemp: unique name, exclusive creation", true)
+			return
+		}
+		// a module function: every file creation in it must be exclusive
+		var bad []string
+		creates := 0
+		eachInstr(target, func(_ *ssa.BasicBlock, _ int, in ssa.Instruction) {
+			call, ok := in.(*ssa.Call)
+			if !ok {
+				return
+			}
+			_, ref := callRef(call)
+			switch ref {
+			case "os.CreateTemp":
+				creates++
+			case "os.Create":
+				creates++
+				bad = append(bad, "os.Create (truncates an existing file)")
+			case "os.OpenFile":
+				creates++
+				if len(call.Call.Args) >= 2 {
+					if k, ok := constInt(call.Call.Args[1]); !ok || k&int64(os.O_EXCL) == 0 {
+						bad = append(bad, "os.OpenFile without O_EXCL")
+					}
+				}
+			}
+		})
+		if creates == 0 || len(bad) > 0 {
+			r.Bad("C07.R5", fid, "createTemp", p.Pos(st.Pos()), "the staging file is created by "+target.Name()+" ("+strings.Join(bad, ", ")+"): a staging name that a concurrent installer can open (and truncate) breaks 'synced before published' — the font that was fsynced and verified is not the data the renamed inode holds after a power loss")
+		} else {
+			r.OK("C07.R5", fid, "createTemp", p.Pos(st.Pos()), "every creation in "+target.Name()+" is exclusive", true)
+		}
+	})
+	if n == 0 {
+		r.Bad("C07.R5", fid, "createTemp", p.Pos(fn.Pos()), "UNRESOLVED-ANCHOR: no createTemp operation is set")
 	}
 }
